@@ -74,6 +74,12 @@ def run(ctx, chk):
         f = prog.fn(l)
         chk.ob("C10.loader", "%s reads %d bytes" % (l, loader_ext(l)), loader_ext(l) in (2, 4, 8), "%s:%d" % (f.file, f.line), fn=l, nontrivial=False)
 
+    chk.rule("C10.nedata", "a head whose payload is not in the buffer is answered NEDATA with read = 0 and no callback, under the test "
+                           "'amount > provided - claimed' (so a string head the encoder writes for any length up to 2^64-1 is never "
+                           "mistaken for a complete item)")
+    chk.rule("C10.nedata-wrap", "the byte count asked for cannot wrap")
+    import decoder_rules as DR_
+    DR_.per_byte(chk, "C10", prog, eff, {"nedata", "nedata-wrap"}, by_byte=by_byte)
     nm = mirror(chk, "C10.mirror", "C10.simple", prog, eff, encs, by_byte, enumv, loader_ext)
     chk.floor("C10.mirror", "encoder byte -> decoder arm links", nm, 200)
     chk.exhaustive = True
